@@ -121,12 +121,14 @@ def configs(tier):
 
     add("POP|n5p2|damped", n=5, p=2)
     add("POP|n5p2|growing", n=5, p=2, r=1.05)
+    add("POP|n5p2|growing|center=False", n=5, p=2, r=1.2, flags={"center": False})  # witness with |lambda| > 1: damping time negative
     add("POP|n6p3|pca2", n=6, p=3)
     add("POP|n5p2|no pca", n=5, p=2, use_pca=False)
     add("POP|n5p2|no pca|transform", n=5, p=2, use_pca=False, check_transform=True)
     add("POP|n5p2|transform", n=5, p=2, check_transform=True)
     out[-1]["options"]["budget_s"] = 60 if tier == "quick" else 900  # inverse-uniqueness argument over two pinv stubs: usually decided at the witness only
     add("POP|linear system|growing|n5", fn="h_linear", n=5, r=1.02)
+    out[-1]["hard_timeout_s"] = 240 if tier == "quick" else 900  # usually 120 s; now and then the first path does not finish - then INCONCLUSIVE, never success
     if tier == "thorough":
         add("POP|n7p3|pca2", n=7, p=3)
         add("POP|n5p2|standardize", n=5, p=2, flags={"standardize": True})
